@@ -15,6 +15,9 @@
 //          turn in the order `steps` gives: schedules of KeepVolume.tla, scheduler of hooks.go; the lines
 //          it returned are judged by the contract's index clause at every instant of the write)
 //   point  yield-point label, occ = which arrival at it
+//   rival  (modes none/cancel/werr) label of THIS upload at which a second, overlapping PUT of the same block is
+//          run from start to reply (it is acknowledged); then the fault of `mode` is armed and this upload goes on.
+//          Both uploads are past CompareAndTouch before either has renamed.  Event "rivalack".
 //
 // kill / killack run the PUT in a CHILD process (this test binary re-executed with
 // -test.run=TestVerifC02Child): verifPoint at the chosen label sends SIGKILL to itself; the parent
@@ -57,7 +60,8 @@ type vC02Scn struct {
 	Mode  string `json:"mode"`
 	Point string `json:"point"`
 	Occ   int    `json:"occ"`
-	CK    string `json:"ck"` // corruption kind of pre = corrupt_old
+	CK    string `json:"ck"`    // corruption kind of pre = corrupt_old
+	Rival string `json:"rival"` // label at which a second PUT of the same block runs to its acknowledgement
 	Steps []struct {
 		A string `json:"a"`
 		L string `json:"l"`
@@ -348,6 +352,62 @@ func vC02RunIndexSchedule(srv *vksServer, scn *vC02Scn, reset map[string]interfa
 // progress (counters kept by verifEnter/verifExit) AND the number of goroutines is back to what it was
 // before the request (base) - a writer goroutine that putWithPipe has started but that has not entered
 // WriteBlock yet is not visible in the counters.
+// vC02RunRival: upload B (the scenario's PUT, rec/req) is stepped to scn.Rival; upload A of the same block then runs
+// uncontrolled (the scheduler does not park a second goroutine of an actor that is already parked) and is answered;
+// then B's fault is armed (the arrival counts of the labels include A's) and B is set free.
+func vC02RunRival(srv *vksServer, scn *vC02Scn, rec *vC02Notifier, req *http.Request, log func(map[string]interface{})) bool {
+	block := vC02Block(scn.N)
+	sched := vNewScheduler(map[string]string{"Compare": "w", "Touch": "w", "WriteBlock": "w"}, nil, srv.volIndex())
+	vHook.mu.Lock()
+	vHook.sched = sched
+	vHook.mu.Unlock()
+	done := make(chan struct{})
+	go func() {
+		srv.h.ServeHTTP(rec, req)
+		sched.actorDone("w")
+		close(done)
+	}()
+	reached := false
+	for i := 0; i < 1000; i++ {
+		l, _ := sched.await("w", 20*time.Second)
+		if l == "done" || l == "" {
+			break
+		}
+		if l == scn.Rival {
+			reached = true
+			break
+		}
+		sched.release("w")
+	}
+	if reached {
+		st := srv.do("PUT", "/"+vksHash(block), block, vksSysToken).Code
+		if st >= 200 && st < 300 {
+			log(map[string]interface{}{"ev": "rivalack", "st": st})
+		}
+		vHook.mu.Lock()
+		switch scn.Mode {
+		case "cancel":
+			vHook.cancelLabel, vHook.cancelN = scn.Point, vHook.seen[scn.Point]+1
+			vHook.cancelFn = func() {
+				select {
+				case rec.ch <- true:
+				default:
+				}
+				time.Sleep(2 * time.Millisecond)
+			}
+		case "werr":
+			vHook.errLabel = scn.Point
+		}
+		vHook.mu.Unlock()
+	}
+	sched.freeAll()
+	<-done
+	vHook.mu.Lock()
+	vHook.sched = nil
+	vHook.mu.Unlock()
+	return reached
+}
+
 func vC02WaitQuiet(base int) bool {
 	deadline := time.Now().Add(30 * time.Second)
 	for time.Now().Before(deadline) {
@@ -486,7 +546,7 @@ func TestVerifC02(t *testing.T) {
 		events := []map[string]interface{}{}
 		log := func(ev map[string]interface{}) { events = append(events, ev) }
 		reset := map[string]interface{}{"ev": "reset", "scn": scn.ID, "pre": scn.Pre, "n": scn.N, "mode": scn.Mode,
-			"point": scn.Point, "occ": scn.Occ, "ck": scn.CK}
+			"point": scn.Point, "occ": scn.Occ, "ck": scn.CK, "rival": scn.Rival}
 		log(reset)
 		log(map[string]interface{}{"ev": "start", "pre": scn.Pre})
 		block := vC02Block(scn.N)
@@ -515,7 +575,7 @@ func TestVerifC02(t *testing.T) {
 			vHookReset()
 			rec := &vC02Notifier{ResponseRecorder: httptest.NewRecorder(), ch: make(chan bool, 1)}
 			vHook.mu.Lock()
-			switch scn.Mode {
+			switch scn.Mode + map[bool]string{true: "+rival", false: ""}[scn.Rival != ""] {
 			case "cancel":
 				vHook.cancelLabel, vHook.cancelN = scn.Point, scn.Occ
 				vHook.cancelFn = func() {
@@ -553,9 +613,14 @@ func TestVerifC02(t *testing.T) {
 			req = req.WithContext(context.Background())
 			req.Header.Set("Authorization", "OAuth2 "+vksSysToken)
 			base := runtime.NumGoroutine()
-			srv.h.ServeHTTP(rec, req)
+			rivalRan := true
+			if scn.Rival != "" {
+				rivalRan = vC02RunRival(srv, scn, rec, req, log)
+			} else {
+				srv.h.ServeHTTP(rec, req)
+			}
 			vHook.mu.Lock()
-			reached := scn.Mode == "none" || vHook.seen[scn.Point] >= scn.Occ
+			reached := rivalRan && (scn.Mode == "none" || vHook.seen[scn.Point] >= scn.Occ)
 			labels := append([]string{}, vHook.order...)
 			vHook.mu.Unlock()
 			reset["reached"] = reached
